@@ -31,7 +31,7 @@ def programs(tier):
 def run(tier, only=None):
     progs = programs(tier)
     results, info = pfam.run(progs, pmut.check_mutation, only)
-    for kind in ("frame", "frame-unsorted", "frame-nosort", "series", "frame-1part"):
+    for kind in ("frame", "frame-unsorted", "frame-nosort", "series", "frame-1part", "numpy-buffer", "numpy-buffer-series"):
         if only and only not in f"source-isolation({kind})":
             continue
         results += pmut.check_source_isolation(kind)
